@@ -122,14 +122,21 @@ class Runner:
         if c["pmce"]:
             from autobahn.websocket.compress import (PerMessageDeflateOffer, PerMessageDeflateOfferAccept,
                                                      PerMessageDeflateResponseAccept)
+            # pmce = 1: defaults; 2: client_no_context_takeover requested by the server (asymmetric takeover);
+            #        3: client_max_window_bits=9 requested by the server (asymmetric windows)
+            v = c["pmce"]
             if role == "server":
                 opts["perMessageCompressionAccept"] = lambda offers: next(
-                    (PerMessageDeflateOfferAccept(o) for o in offers if isinstance(o, PerMessageDeflateOffer)), None)
-                kw["ext_request"] = "permessage-deflate"
+                    (PerMessageDeflateOfferAccept(o, request_no_context_takeover=(v == 2),
+                                                  request_max_window_bits=(9 if v == 3 else 0))
+                     for o in offers if isinstance(o, PerMessageDeflateOffer)), None)
+                kw["ext_request"] = "permessage-deflate; client_max_window_bits"
             else:
-                opts["perMessageCompressionOffers"] = [PerMessageDeflateOffer()]
+                opts["perMessageCompressionOffers"] = [PerMessageDeflateOffer(accept_no_context_takeover=True,
+                                                                              accept_max_window_bits=True)]
                 opts["perMessageCompressionAccept"] = lambda r: PerMessageDeflateResponseAccept(r)
-                kw["ext_response"] = "permessage-deflate"
+                kw["ext_response"] = {1: "permessage-deflate", 2: "permessage-deflate; client_no_context_takeover",
+                                      3: "permessage-deflate; client_max_window_bits=9"}[v]
         ep = ws.make_ws(env, role, opts, handshake=(start == "open"), **kw)
         p = ep.proto
         ep.failtexts = set()
@@ -142,7 +149,7 @@ class Runner:
         p._fail_connection = _fail
         self.env.txaio.add_callbacks(p.is_closed, lambda _: ep.events.append(("cr",)), None)
         if start == "open":
-            assert c["pmce"] == (p._perMessageCompress is not None), "pmce negotiation mismatch"
+            assert bool(c["pmce"]) == (p._perMessageCompress is not None), "pmce negotiation mismatch"
         self.pe["st"]["ctr"] = 0
         ep.mark = len(ep.events)
         ep.t0 = env.now()
